@@ -11,7 +11,7 @@ COQ_CHECK = "HttpReq.check_case"
 COQ_CASE_TYPE = "HttpReq.case"
 COQ_BRANCHES = ("HttpReq.case_branches", "HttpReq.n_branches")
 SHARD = 150
-RULE = ("request specs: 9 methods x unicode paths over an alphabet with reserved, percent, space and non-BMP characters x "
+RULE = ("request specs: 9 methods x unicode paths (a quarter given as urls with ?query and / or #fragment - empty, simple, with blanks, reserved and non-ASCII characters - whose arguments must be merged and whose fragment must never reach the wire) over an alphabet with reserved, percent, space and non-BMP characters x "
         "query dicts and form dicts whose keys/values contain & = + % # ? ; space and non-ASCII x header sets (token names in "
         "mixed case, latin-1 values with ': ', blanks, empty) x raw / JSON / form bodies, with and without explicit "
         "Content-Length; built by the real Requester, parsed by the real Requestant + Server.buildEnviron; a second stream "
@@ -218,23 +218,53 @@ def _backend_wires(case):
         tcp.Client.__init__ = orig
 
 
+def _effective(spec):
+    """what build() sends for a url given as path=: bare path, the url's query arguments merged into qargs
+    (httping.updateQargsQuery: ';' else '&' separated, names and values unquote_plus'ed, a name without '='
+    means 'true', later names replace), the fragment dropped.  Independent mirror written from the documentation."""
+    from urllib.parse import unquote_plus
+    path = spec["path"]
+    path, _, _frag = path.partition("#")
+    path, _, query = path.partition("?")
+    q = [list(kv) for kv in spec["qargs"]]
+    if query:
+        parts = query.split(";") if ";" in query else query.split("&") if "&" in query else [query]
+        for part in parts:
+            if not part:
+                continue
+            if "=" in part:
+                k, v = part.split("=", 1)
+                k, v = unquote_plus(k), unquote_plus(v)
+            else:
+                k, v = unquote_plus(part), "true"
+            for kv in q:
+                if kv[0] == k:
+                    kv[1] = v
+                    break
+            else:
+                q.append([k, v])
+    return dict(spec, path=path, qargs=q)
+
+
 def specs(case):
     """The request every build of the history is asked to send (independent mirror of the Requester's
     documented differential semantics: method/path/qargs/headers carry over, body/data/fargs do not;
     the content-type a JSON / form build stores in .headers stays)."""
-    cur = {k: case[k] for k in ("method", "path", "qargs", "headers", "body")}
+    cur = _effective({k: case[k] for k in ("method", "path", "qargs", "headers", "body")})
     out = [dict(cur)]
     for op in case.get("ops", []):
         cur = dict(cur, headers=_final_headers(cur))
         if op.get("bare"):          # transmit() with no argument: the held request again
             if "headers" in op:
                 cur["headers"] = op["headers"]
+            cur = _effective(cur)
             out.append(dict(cur))
             continue
         for f in ("method", "path", "qargs", "headers"):
             if f in op:
                 cur[f] = op[f]
         cur["body"] = op.get("body", ["raw", ""])
+        cur = _effective(cur)
         out.append(dict(cur))
     return out
 
@@ -675,6 +705,19 @@ def _body_len(case):
     return len("&".join(quote_plus(k) + "=" + quote_plus(v) for k, v in b[1]))
 
 
+FRAGS = ["", "top", "section two", "übersicht", "a?b&c=d", "x#y", "%23", " ", "é €", "q=1&r"]
+QUERIES = ["x=1", "a=b&c", "k=%20v&k2=a+b", "flag", "a+b=c%20d;e=f", "n%C3%A9=v", "=v", "k=", "k=1&k=2", "e%3D=%26"]
+
+
+def _url_path(rng, path):
+    """a url for path=: the path, optionally ?query, optionally #fragment"""
+    if rng.random() < 0.6:
+        path += "?" + rng.choice(QUERIES)
+    if rng.random() < 0.7:
+        path += "#" + rng.choice(FRAGS)
+    return path
+
+
 def _spoil(rng, case):
     k = rng.randrange(6)
     if k == 0:
@@ -711,6 +754,8 @@ def _op(rng, independent=False):
         for f in ("method", "path", "qargs", "headers"):
             if rng.random() < 0.5:
                 op[f] = new[f]
+        if "path" in op and rng.random() < 0.3:
+            op["path"] = _url_path(rng, op["path"])
         if "qargs" in op and rng.random() < 0.3:
             op["qargs"] = []
         if "headers" in op:
@@ -736,6 +781,8 @@ def generate(rng, tier):
     out = []
     for i in range(n):
         c = _spec(rng)
+        if rng.random() < 0.25:      # the url given as path= carries a query and / or a fragment
+            c["path"] = _url_path(rng, c["path"])
         if rng.random() < 0.12:
             c = _spoil(rng, c)
         nops = rng.choice([0, 1, 1, 2, 3])
@@ -815,6 +862,11 @@ def directed():
         R(method="POST", path="/c", qargs=[["a", "b"]], headers=[["X-A", "1"]], body=["json", {"k": 1}], via="client",
           ops=[{"method": "PUT"}, {"headers": []}, {"body": ["form", [["f", "g h"]]]}, {"qargs": [["x y", "&"]], "headers": [["X-B", "2"]]}]),
         R(path="/c", via="client", ops=[{"method": "DELETE", "path": "/é", "qargs": [["k", "v"]], "headers": [["Accept", "*/*"]], "body": ["raw", b"zz".hex()]}, {}]),
+        # a url with query and fragment given as path=: bare path sent, query merged, fragment never on the wire
+        R(method="PUT", path="/doc/7?rev=2#section two", qargs=[["rev", "1"], ["k", "v"]], body=["raw", b"x".hex()], ops=[{}]),
+        R(path="/wiki/page#übersicht", ops=[{"method": "POST", "body": ["raw", b"y".hex()]}]),
+        R(path="/s?a+b=c%20d;e=f&g#", qargs=[["e", "0"]], via="client", ops=[{"path": "/t?flag#x#y"}, {}]),
+        R(method="POST", path="/f#a?b&c=d", body=["form", [["k", "v"]]], ops=[{"path": "/g?k=1&k=2#%23"}]),
         # followed redirects: the follow-up request is built from the Location
         R(path="/old", qargs=[["a", "1"]], via="client", ops=[{"redirect": True, "path": "/new", "qargs": [["q", "a b"], ["full name", "x+y"], ["né", "v&w=%"]], "enc": "plus"}, {}]),
         R(method="POST", path="/old", headers=[["X-A", "1"]], body=["json", {"k": 1}], via="client", first="transmit",
